@@ -46,6 +46,8 @@ def check(res):
         refuse_words.append(w + "x"); refuse_words.append(w[:-1]) if len(w) > 1 else None
         # a basic name followed by a NUL and more text, a trailing NUL, a leading NUL, a trailing blank: still unknown names
         refuse_words += [w + "\0x", w + "\0", "\0" + w, w + "\0 " + w, w + " ", w.upper() if w.upper() != w else w + "_"]
+        # decorated spellings (vendor keywords and the like) are other names
+        refuse_words += ["__" + w, "__" + w + "__", w + "__", "_" + w, w + "_", "_" + w + "_", "__" + w + "_", w.capitalize() if w.capitalize() != w else "_" + w + "__"]
     for i in range(300 if res.tier == "quick" else 5000):
         ln = rnd.randrange(1, 12)
         refuse_words.append("".join(rnd.choice("abcdefghijklmnopqrstuvwxyz_=0+ ") for _ in range(ln)))
